@@ -240,3 +240,25 @@ mod tests {
         }
     }
 }
+
+#[cfg(feature = "verif")]
+impl ConciseFreeResources {
+    /// Plain-data dump: per resource, per group (free units, partially free indices).
+    pub(crate) fn verif_snapshot(&self) -> Vec<crate::verif::ConciseSnapshot> {
+        self.resources
+            .iter()
+            .map(|state| {
+                state
+                    .free
+                    .iter()
+                    .map(|g| {
+                        let mut f: Vec<(u32, u32)> =
+                            g.fractions.iter().map(|(i, f)| (i.as_num(), *f)).collect();
+                        f.sort_unstable();
+                        (g.units, f)
+                    })
+                    .collect()
+            })
+            .collect()
+    }
+}
